@@ -1224,6 +1224,11 @@ func DecodePatch(buf []byte) (Patch, error) {
 		return nil, err
 	}
 
+	if p == nil {
+		// the JSON text "null": not an array of operations
+		return nil, fmt.Errorf("patch document must be an array: %w", ErrInvalid)
+	}
+
 	if err := validatePatch(p); err != nil {
 		return nil, err
 	}
